@@ -1,5 +1,6 @@
 import McpModel.Base.Proto
 import McpModel.ClientStream.Monitor
+import McpModel.ClientStream.ScnOK
 /-!
 Driver for E6 (C09).  Replays the harness's records on the model (`ClientStream.run`, one `step` per
 HTTP exchange) and evaluates the C09 monitor on the IMPLEMENTATION's observations.  The monitor itself
@@ -155,7 +156,10 @@ def engine : Engine DState where
         let full ← (kv rest "full").bind (fun s => hexToBytes (dropS s 1))
         if kind != "post" && kind != "sa" then none
         if bodyFrom items 0 != full then none
-        some { scn := { lab := strLabels, sa := kind == "sa", mr := Generated.ClientStream.maxRetriesOf mr, items := items }, ready := true }
+        let scn : Scn String := { lab := strLabels, sa := kind == "sa", mr := Generated.ClientStream.maxRetriesOf mr, items := items }
+        -- the scenario is one of a faithful server: the hypothesis of `monitor_accepts_model`
+        if !decide (ScnOK scn) then none
+        some { scn := scn, ready := true }
       match r with
       | some d' => (d', { model := "ok" })
       | none => ({}, { model := "bad-scn" })
